@@ -62,7 +62,12 @@ impl FlowMetrics {
     }
 
     fn pending_inc(&self) {
-        let pending = self.pending_batches.fetch_add(1, Ordering::Relaxed) + 1;
+        // The receiver may already have decremented the counter for this batch (it wraps below
+        // zero); the increment must wrap as well instead of overflowing.
+        let pending = self
+            .pending_batches
+            .fetch_add(1, Ordering::Relaxed)
+            .wrapping_add(1);
         loop {
             let current_peak = self.peak_pending.load(Ordering::Relaxed);
             if pending <= current_peak {
